@@ -20,6 +20,7 @@ type gen struct {
 	open  [2]map[uint32]int // id -> handle currently registered
 	pend  [2][]int        // frames queued and unread, per handle (as far as the generator can tell)
 	bg    [2][]int        // background reads outstanding per handle
+	bgOp  [2][]int        // op index of the outstanding background read per handle
 	dead  bool            // some failure/close happened: both ends are (about to be) closed
 	cdead [2][]bool       // conn closed individually
 	seq   int
@@ -46,6 +47,7 @@ func (g *gen) openConn(end int, id uint32, how string) int {
 	g.idOf[end] = append(g.idOf[end], id)
 	g.pend[end] = append(g.pend[end], 0)
 	g.bg[end] = append(g.bg[end], 0)
+	g.bgOp[end] = append(g.bgOp[end], -1)
 	g.cdead[end] = append(g.cdead[end], false)
 	g.open[end][id] = h
 	return h
@@ -68,15 +70,23 @@ func (g *gen) write(x, h, n int) {
 	y := 1 - x
 	id := g.idOf[x][h]
 	if hy, ok := g.open[y][id]; ok {
+		joinOp := -1
 		for f := g.frames(n); f > 0; f-- {
 			if g.bg[y][hy] > 0 {
 				g.bg[y][hy]--
+				joinOp = g.bgOp[y][hy]
 			} else {
 				g.pend[y][hy]++
 				if g.pend[y][hy] > g.qlen {
 					g.dead = true
 				}
 			}
+		}
+		if joinOp >= 0 {
+			// a background Read is waiting for this frame: flush, then wait for it, so that
+			// it does not matter whether it was already parked when the frame arrived
+			g.sync(x)
+			g.ops = append(g.ops, Op{Op: "join", End: y, K: joinOp})
 		}
 	}
 }
@@ -91,6 +101,7 @@ func (g *gen) read(y, h, blen, bcap int) {
 func (g *gen) readbg(y, h, blen int) {
 	g.ops = append(g.ops, Op{Op: "readbg", End: y, H: h, Blen: blen, Bcap: blen})
 	g.bg[y][h]++
+	g.bgOp[y][h] = len(g.ops) - 1
 }
 
 // sync flushes both directions over the control connection (see CtrlID).
@@ -298,6 +309,7 @@ func ListenerScripts(mp int) []Job {
 		g.idOf[0] = append(g.idOf[0], 3)
 		g.pend[0] = append(g.pend[0], 0)
 		g.bg[0] = append(g.bg[0], 0)
+		g.bgOp[0] = append(g.bgOp[0], -1)
 		g.cdead[0] = append(g.cdead[0], false)
 		g.open[0][3] = 1
 		hb := g.openConn(1, 3, "dial")
